@@ -84,12 +84,12 @@ fn ugcd_contract<const LG: usize>(a: &BigUint, b: &BigUint) -> BigUint {
     unsafe { GH_G = [g[0], if LG > 1 { g[1] } else { 0 }]; }
     vc::mk_from(&g)
 }
-fn ugcd_c1<'a>(a: &BigUint, b: &'a BigUint) -> BigUint where 'a: 'a { ugcd_contract::<1>(a, b) }
+fn ugcd_c1(a: &BigUint, b: &BigUint) -> BigUint { ugcd_contract::<1>(a, b) }
 macro_rules! igcd_shape {
     ($name:ident, $na:expr, $la:expr, $nb:expr, $lb:expr) => {
         #[kani::proof]
         #[kani::unwind(34)]
-        #[kani::stub(<BigUint as Integer>::gcd, ugcd_c1)]
+        #[kani::stub(<crate::biguint::BigUint as num_integer::Integer>::gcd, ugcd_c1)]
         #[kani::stub(crate::biguint::verif_common::symbolic, crate::biguint::verif_common::yes)]
         fn $name() {
             let a0: [u64; $la] = vc::any_canon::<$la>();
